@@ -10,6 +10,7 @@ import (
 	"testing/synctest"
 
 	"github.com/couchbase/nitro"
+	"github.com/couchbase/nitro/skiplist"
 )
 
 // Op is one generated operation: a kind and integer arguments.
@@ -112,6 +113,7 @@ type Env struct {
 	Res     *RunResult
 	T       *testing.T
 	PlanRng *Rng
+	Alloc   *GuardAlloc
 	Verbose bool
 	obsHash uint64
 	tmpDirs []string
@@ -125,7 +127,11 @@ func (e *Env) Violate(prop, sig, format string, args ...interface{}) {
 		}
 	}
 	e.Res.Violations = append(e.Res.Violations, Violation{Property: prop, Sig: sig, Detail: d})
-	e.Logf("VIOLATION %s %s: %s", prop, sig, d)
+	e.Logf("VIOLATION %s %s", prop, sig)
+	if e.Verbose {
+		// details may contain addresses: never part of the observation hash
+		e.Res.Log = append(e.Res.Log, "  detail: "+d)
+	}
 }
 
 func (e *Env) Probe(name string) { e.Res.Probes[name]++ }
@@ -259,8 +265,23 @@ func (e *Env) Finish(v Verdict, livenessProp string) bool {
 		if len(scenarios[e.Res.Scenario].Props) > 0 {
 			prop = scenarios[e.Res.Scenario].Props[0]
 		}
+		if e.S.FaultAddr() != 0 && e.Alloc != nil {
+			if d, freed := e.Alloc.DescribeAddr(e.S.FaultAddr()); d != "" {
+				cls := "out-of-bounds"
+				if freed {
+					cls = "use-after-free"
+					if strings.Contains(d, " node block") && e.S.SiteHits(skiplist.SiteInsertRelinkedMarked) > 0 {
+						cls = "use-after-free/node-relinked-by-inserter-after-its-delete-was-flushed"
+					}
+				}
+				e.Violate("C04", cls, "%s: %s; frames: %s", why, d, nitroFrames(e.S.AbortStack()))
+			}
+		}
 		if len(e.Res.Violations) == 0 {
 			e.Violate(prop, "panic:"+panicClass(why), "%s", why)
+		}
+		if e.Verbose && e.S.AbortStack() != "" {
+			e.Res.Log = append(e.Res.Log, "  stack: "+nitroFrames(e.S.AbortStack()))
 		}
 	}
 	return false
@@ -313,4 +334,27 @@ func GenSched(r *Rng, seed uint64, estSteps int, stallSites []int) SchedPlan {
 	}
 	sp.TickChance = []float64{0, 0.05, 0.3}[r.Intn(3)]
 	return sp
+}
+
+// nitroFrames keeps the frames of a stack trace that lie in the code under test.
+func nitroFrames(stack string) string {
+	var out []string
+	lines := strings.Split(stack, "\n")
+	for i, l := range lines {
+		if strings.Contains(l, "github.com/couchbase/nitro") && !strings.HasPrefix(l, "\t") {
+			loc := ""
+			if i+1 < len(lines) {
+				loc = strings.TrimSpace(lines[i+1])
+				if j := strings.Index(loc, " +0x"); j > 0 {
+					loc = loc[:j]
+				}
+			}
+			fn := l
+			if j := strings.Index(fn, "("); j > 0 {
+				fn = fn[:j]
+			}
+			out = append(out, fn+" "+loc)
+		}
+	}
+	return strings.Join(out, " <- ")
 }
